@@ -115,6 +115,17 @@ fn build(seeds: &[u16]) -> (CfgSpec, Vec<(String, String, bool)>, Vec<String>, S
                 members.push(format!("n{}", i));
             }
         }
+        // sometimes the hidden channel is crowded (reply chunking: 20 names per 353, 30 channels
+        // per 319): extra members that exist in both worlds but join the channel only in W1
+        if s.chance(25) {
+            let extra = 18 + s.pick(30);
+            for k in 0..extra {
+                let n = format!("x{}", k);
+                nicks.push(n.clone());
+                script.push((n.clone(), format!("JOIN {}", sec), true));
+                members.push(n);
+            }
+        }
         if s.chance(60) {
             script.push((members[0].clone(), format!("TOPIC {} :secret plans", sec), true));
         }
@@ -272,7 +283,7 @@ pub fn check(c: &PairCase, st: &mut Stats) -> Result<(), Viol> {
         n0.sort();
         st.count("queries_compared");
         if hidden_ops > 0 {
-            st.nontrivial(format!("{}|{}|{}", hidden_kind, query_form(q), obs_kind), || {
+            st.nontrivial(format!("{}|{}|{}|h{}", hidden_kind, query_form(q), obs_kind, (hidden_ops.min(40) + 7) / 8), || {
                 json!({"hidden": hidden_kind, "observer": obs_kind, "query": q,
                        "hidden_part": script.iter().filter(|x| x.2).map(|x| format!("{}: {}", x.0, x.1)).collect::<Vec<_>>()})
             });
